@@ -682,6 +682,15 @@ func (p *OAuthProxy) SignIn(rw http.ResponseWriter, req *http.Request) {
 	user, ok, statusCode := p.ManualSignIn(req)
 	if ok {
 		session := &sessionsapi.SessionState{User: user, Groups: p.basicAuthGroups}
+		authorized, err := p.provider.Authorize(req.Context(), session)
+		if err != nil {
+			logger.Errorf("Error with authorization: %v", err)
+		}
+		if !authorized {
+			logger.PrintAuthf(user, req, logger.AuthFailure, "Invalid authentication via HtpasswdFile: unauthorized")
+			p.ErrorPage(rw, req, http.StatusForbidden, "Invalid session: unauthorized")
+			return
+		}
 		err = p.SaveSession(rw, req, session)
 		if err != nil {
 			logger.Printf("Error saving session: %v", err)
